@@ -61,7 +61,7 @@ def dm_for_maxdelay(md, fch1, foff, nchans):
 @st.composite
 def strat_case(draw, tier):
     mx = 80 if tier == "quick" else 200
-    lay = draw(vs.layout(depths=vs.DEPTHS_STREAM, max_samples=mx, min_samples=2, max_files=2,
+    lay = draw(vs.layout(depths=vs.DEPTHS_STREAM, max_samples=mx, min_samples=2, max_files=3,
                          data_kinds=["full", "f32int"], max_chans=16, max_chan_units=2))
     if lay["nbits"] == 32:
         lay["data_kind"] = "f32int"
@@ -239,7 +239,9 @@ def check_history(case, ctx):
     N, nchans = D.shape
     rd = FilReader(paths)
     labels = []
+    kept = []
     for k, op in enumerate(case["ops"]):
+        got = None
         start, nsamps, gulp = op["start"], op["nsamps"], op["gulp"]
         eff = N - start if nsamps is None else nsamps
         X = D[start : start + eff].astype(np.float64)
@@ -283,6 +285,14 @@ def check_history(case, ctx):
         except Exception as exc:  # noqa: BLE001
             raise Violation(f"history:{name}:raised:{type(exc).__name__}", f"{ctxt}: {exc!r}") from exc
         labels.append(name)
+        if name in ("collapse", "bandpass", "read_chan", "dedisperse", "read_block") and got is not None:
+            kept.append((name, k, got, np.array(got, copy=True)))
+            got = None
+    # what an earlier call returned belongs to the caller: later calls on the reader must not have changed it
+    for name, k, arr, snap in kept:
+        if not np.array_equal(np.asarray(arr), snap, equal_nan=True):
+            raise Violation("history:earlier-result-changed-by-later-call", f"N={N} nchans={nchans} nbits={lay['nbits']}: the array returned by step {k} ({name}) "
+                            f"was modified by the later steps {[o['op'] for o in case['ops'][k + 1:]]}")
     return Info(len(case["ops"]) >= 2, tuple(labels))
 
 
